@@ -42,8 +42,7 @@
        programs (C01_all_src_parsed: proofs/SrcAll.v — choice types are non-empty and the checker
        demands a branch per label; the parser never builds a droppable forward).
      * C01_safety_all_modes_parsed : the same in ALL THREE execution modes (`safety_statement`): Topo along
-       the runs of the non-polarized mode is proofs/TopoNP.v (a step of that mode is a synchronous
-       step, a drop that spawns nothing, or the control message of a forward).
+       the runs of the non-polarized mode is proofs/InvNP.v / DeterminismNP.v (another contributor).
    Every statement above is closed under the global context; nothing is left as a premise for parsed,
    accepted, closed programs. *)
 From stdpp Require Import gmap strings.
@@ -52,7 +51,7 @@ Require Import Grits.Base Grits.ModeDefs Grits.Modes Grits.STypes Grits.Forms Gr
                Grits.proofs.StepErrors Grits.proofs.RtSubst Grits.proofs.RtEffect Grits.proofs.RtSafety
                Grits.proofs.RtInit Grits.proofs.RtTheorems Grits.proofs.RtStaticCheck
                Grits.spec.SynOk Grits.proofs.RtTcSyn Grits.proofs.RtTcBisim Grits.proofs.ParseRaw Grits.proofs.RtSafetyNP Grits.proofs.RtTheoremsTc
-               Grits.proofs.InitAccept Grits.proofs.DeterminismAll Grits.proofs.SrcAll Grits.proofs.TopoNP Grits.proofs.RtTheoremsFinal.
+               Grits.proofs.InitAccept Grits.proofs.DeterminismAll Grits.proofs.SrcAll Grits.proofs.RtTheoremsFinal.
 
 Theorem C01_step_error_inv : forall md D F c ch who e,
   step md D F c ch = SError who e <-> step_err md D F c ch who e.
